@@ -29,8 +29,8 @@ L_KIND = z3.Function('lock_kind', LZ, z3.IntSort()); L_EXCL = z3.Function('lock_
 def build(reg):
     dyn.install(reg)
     reg.tracked_names = {'useSharedPackage', 'OpenLocked', 'rename', 'dump', 'load', 'rmtree', 'unlink', 'remove', 'move', 'copytree', 'hashDirectoryWithSize', '__addPackage', '_LocalShare__addPackage'}
-    reg.trusted += ['OpenLocked: __enter__ takes the flock (shared/exclusive) on the opened file, __exit__ releases it; flock semantics are the OS\'s',
-                    'repo.json holds complete JSON whenever it is read under its lock (writers rewrite it completely under the exclusive lock; a crash in the middle of such a rewrite is outside this property)',
+    reg.trusted += ['flock semantics are the OS\'s (lockFile/unlockFile are one fcntl.flock call each: watched, not proved); callers of OpenLocked rely on OpenLocked.__enter__/__exit__ only through their contracts proved here',
+                    'repo.json / pkg.json hold complete JSON whenever they are read under their lock: every writer rewrites them completely under the exclusive lock and OpenLocked.__exit__ flushes before unlocking (proved); a crash in the middle of such a rewrite is outside this property',
                     'os.rename of a directory is atomic and fails with ENOTEMPTY/EEXIST if the destination exists and is not empty',
                     'tempfile.TemporaryDirectory(dir=store) yields a private directory that is removed when the with-block is left (after the locks were released)']
     reg.constants['errno.ENOTEMPTY'] = lambda e, st: mk_int(39); reg.constants['errno.EEXIST'] = lambda e, st: mk_int(17)
@@ -141,6 +141,45 @@ def build(reg):
     def m_add(eng, st, args, kw, node):
         eng.oblige(st, 'addPackage@%s:size-accounted-only-for-a-package-this-call-made-visible' % node.lineno, g(st, 'RENAMED'), 'typestate', node)
         return [eng.raise_(st.fork(), 'bob.errors.BuildError', 'accounting fails'), (st, dyn.fresh('repoSize'))]
+    # ---- OpenLocked itself: the lock is what makes "read under the lock" mean "complete": a writer's buffered update has to be
+    # flushed BEFORE the lock is released, the lock is released and the file closed on every path (ghost FLUSH_TRIED,
+    # UNLOCK_TRIED, CLOSED, OPENED, LOCKED)
+    def ol(): return getattr(reg.current_unit, 'qual', '').startswith('OpenLocked')
+    @reg.model('Dyn.flush')
+    def m_flush(eng, st, args, kw, node):
+        if not ol(): return None
+        st.ghost['FLUSH_TRIED'] = mk_bool(True)
+        return [eng.raise_(st.fork(), 'OSError', 'flush fails (disk full) at %s' % eng.loc(node)), (st, mk_none())]
+    @reg.model('Dyn.unlockFile')
+    def m_unlock(eng, st, args, kw, node):
+        if not ol(): return None
+        eng.oblige(st, 'unlockFile@%s:buffered-updates-are-flushed-before-the-lock-is-released' % node.lineno, g(st, 'FLUSH_TRIED'), 'typestate', node)
+        eng.oblige(st, 'unlockFile@%s:file-still-open-when-unlocked' % node.lineno, z3.Not(g(st, 'CLOSED')), 'typestate', node)
+        st.ghost['UNLOCK_TRIED'] = mk_bool(True)
+        return [eng.raise_(st.fork(), 'OSError', 'unlock fails at %s' % eng.loc(node)), (st, mk_none())]
+    @reg.model('Dyn.close')
+    def m_close(eng, st, args, kw, node):
+        if not ol(): return None
+        st.ghost['CLOSED'] = mk_bool(True)
+        return [eng.raise_(st.fork(), 'OSError', 'close fails at %s' % eng.loc(node)), (st, mk_none())]
+    @reg.model('Dyn.open', 'open')
+    def m_open(eng, st, args, kw, node):
+        if not ol(): return None
+        out = [eng.raise_(st.fork(), c, 'open fails at %s' % eng.loc(node)) for c in ('FileNotFoundError', 'FileExistsError', 'OSError')]
+        fd = dyn.fresh('fd'); st.ghost['OPENED'] = mk_bool(True); st.ghost['FD'] = fd
+        return out + [(st, fd)]
+    @reg.model('Dyn.lockFile')
+    def m_lockfile(eng, st, args, kw, node):
+        if not ol(): return None
+        a = args[-2:]
+        eng.oblige(st, 'lockFile@%s:the-opened-file-is-locked-in-the-requested-mode' % node.lineno,
+                   z3.And(g(st, 'OPENED'), a[0].z == st.ghost['FD'].z, dyn.dynify(eng, st, a[1]) == dyn.ATTR(st.frames[-1]['self'].z, z3.StringVal('exclusive'))), 'typestate', node)
+        x = st.fork(); out = [eng.raise_(x, 'OSError', 'flock fails / interrupted at %s' % eng.loc(node))]
+        st.ghost['LOCKED'] = mk_bool(True)
+        return out + [(st, mk_none())]
+    def ol_init(eng, st):
+        for n in ('FLUSH_TRIED', 'UNLOCK_TRIED', 'CLOSED', 'OPENED', 'LOCKED'): st.ghost[n] = mk_bool(False)
+        st.ghost['FD'] = dyn.fresh('nofd')
     # the comparison `actualHash != sharedHash` decides VERIFIED: hook on the raise of the mismatch error is not needed, the
     # path condition carries it; VERIFIED is set when the code passes the comparison with equality
     units = []
@@ -174,7 +213,17 @@ def build(reg):
     units.append(Unit(F, 'LocalShare.installSharedPackage', {'self': DYN, 'workspace': DYN, 'buildId': DYN, 'sharedHash': DYN, 'mayMove': DYN}, 'C15', ghost_init=ghost_init,
         ensures=[('a-package-installed-by-somebody-else-is-handed-out-only-after-recording-this-workspace-as-its-user', inst_post)], raises={'bob.errors.BuildError': True}, result=None, max_paths=6000,
         note='visible only after hash verification and meta data; lost rename race tolerated; size accounted after a successful rename'))
+    units.append(Unit(F, 'OpenLocked.__exit__', {'self': DYN, 'exc_type': DYN, 'exc_value': DYN, 'traceback': DYN}, 'C15', ghost_init=ol_init,
+        ensures=[('flushed-then-unlocked-then-closed', lambda o, n, r: z3.And(n.ghost.FLUSH_TRIED.z, n.ghost.UNLOCK_TRIED.z, n.ghost.CLOSED.z))],
+        ensures_exc=[('file-closed-even-when-a-step-fails', '*', lambda o, n: n.ghost.CLOSED.z)],     # close() gives the flock up with the descriptor
+        raises={'OSError': True}, result=None, max_paths=400,
+        note='buffered updates reach the file before the lock is released; the lock is released and the file closed on every path'))
+    units.append(Unit(F, 'OpenLocked.__enter__', {'self': DYN}, 'C15', ghost_init=ol_init,
+        ensures=[('returns-the-opened-file-locked-and-not-closed', lambda o, n, r: z3.And(n.ghost.OPENED.z, n.ghost.LOCKED.z, z3.Not(n.ghost.CLOSED.z), r.z == n.ghost.FD.z))],
+        ensures_exc=[('a-file-that-could-not-be-locked-is-closed-again', '*', lambda o, n: z3.Implies(n.ghost.OPENED.z, n.ghost.CLOSED.z))],
+        raises={'OSError': True, 'FileNotFoundError': True, 'FileExistsError': True}, result=None, max_paths=400,
+        note='opens the file and takes the flock in the requested mode; no descriptor (and no lock) leaks when locking fails'))
+    units[-1].dyn_attr_store = True
     units += [
-              Watch(F, 'OpenLocked.__enter__', 'flock'), Watch(F, 'OpenLocked.__exit__', 'flock'),
               Watch(F, 'checkUnused', 'usage check'), Watch(F, 'sameWorkspace', 'usage check')]
     return units
